@@ -597,6 +597,8 @@ def apply_op(w, op, res, reading, skip=False):
             os.remove(w.files[0][0])
             res.fault('file_vanished')
     elif k == 'advance':
+        if w.files and w.dirty and 'C05-flood-update' in w.guards and has_flood(w, w.files[0][1]):
+            return 'guarded'        # the pending reload would replace the values under a flood fill made since the rewrite
         if w.files:
             import warnings
             with warnings.catch_warnings():
